@@ -150,30 +150,69 @@ class KaniSession:
         return vals, text[-3000:]
 
     def replay(self, harness, vals, out_dir, timeout=1800):
-        """run the same harness as an ordinary #[test] on the real code (repository toolchain, no stubs) with
-        the concrete values; returns ('confirmed'|'not-reproduced'|'assume-rejected'|'error', output tail)"""
+        """run the same harness as an ordinary #[test] on the real code (repository toolchain, no stubs) with the concrete
+        values; returns ('confirmed'|'not-reproduced'|'assume-rejected'|'error', output tail).
+        Kani's concrete playback does not always list the values in the order the harness draws them (values drawn inside
+        callees such as a mock backend come out of order), so when the listed order does not reproduce the failure the other
+        orders of the same values are tried (all permutations up to 6 values, else reversal and rotations)."""
+        import itertools
         self.build()
         os.makedirs(out_dir, exist_ok=True)
         vf = os.path.join(out_dir, harness + ".vals")
-        with open(vf, "w") as f:
-            f.write("# one line per vk::any() call, little-endian bytes in hex\n")
-            for v in vals:
-                f.write("".join("%02x" % b for b in v) + "\n")
         env = dict(ENV, RUSTFLAGS="--cfg verif_replay", VERIF_REPLAY_FILE=vf,
                    CARGO_TARGET_DIR=os.path.join(self.dir, "target-replay"))
-        cmd = ["cargo", "test", "--offline", "--lib", harness, "--", "--test-threads", "1", "--nocapture"]
-        self.cmds.append("RUSTFLAGS='--cfg verif_replay' VERIF_REPLAY_FILE=%s %s" % (vf, " ".join(cmd)))
+
+        def write_vals(vs):
+            with open(vf, "w") as f:
+                f.write("# one line per vk::any() call, little-endian bytes in hex\n")
+                for v in vs:
+                    f.write("".join("%02x" % b for b in v) + "\n")
+        write_vals(vals)
+        cmd = ["cargo", "test", "--offline", "--lib", "--no-run"]
+        self.cmds.append("RUSTFLAGS='--cfg verif_replay' VERIF_REPLAY_FILE=%s cargo test --offline --lib %s -- --nocapture" % (vf, harness))
         try:
-            p = subprocess.run(cmd, cwd=self.dir, env=env, stdout=subprocess.PIPE, stderr=subprocess.STDOUT, text=True,
-                               timeout=timeout)
+            p = subprocess.run(cmd, cwd=self.dir, env=env, stdout=subprocess.PIPE, stderr=subprocess.STDOUT, text=True, timeout=timeout)
         except subprocess.TimeoutExpired:
-            return "error", "replay timed out"
-        text = p.stdout
-        tail = text[-3000:]
-        if "VK-ASSUME-REJECTED" in text:
-            return "assume-rejected", tail
-        if re.search(r"test .*%s \.\.\. FAILED" % re.escape(harness), text) or ("panicked at" in text and "test result: FAILED" in text):
-            return "confirmed", tail
-        if re.search(r"test .*%s \.\.\. ok" % re.escape(harness), text):
-            return "not-reproduced", tail
-        return "error", tail
+            return "error", "replay build timed out"
+        m = re.search(r"Executable unittests src/lib.rs \((.*?)\)", p.stdout)
+        if not m:
+            return "error", p.stdout[-3000:]
+        exe = os.path.join(self.dir, m.group(1)) if not os.path.isabs(m.group(1)) else m.group(1)
+
+        def run_once():
+            try:
+                q = subprocess.run([exe, harness, "--test-threads", "1", "--nocapture"], cwd=self.dir, env=env, stdout=subprocess.PIPE,
+                                   stderr=subprocess.STDOUT, text=True, timeout=300)
+            except subprocess.TimeoutExpired:
+                return "error", "replay timed out"
+            text = q.stdout
+            tail = text[-3000:]
+            if "VK-ASSUME-REJECTED" in text:
+                return "assume-rejected", tail
+            if re.search(r"test .*%s \.\.\. FAILED" % re.escape(harness), text) or ("panicked at" in text and "test result: FAILED" in text):
+                return "confirmed", tail
+            if re.search(r"test .*%s \.\.\. ok" % re.escape(harness), text):
+                return "not-reproduced", tail
+            return "error", tail
+        status, tail = run_once()
+        if status == "confirmed":
+            return status, tail
+        first = (status, tail)
+        if len(vals) <= 6:
+            orders = itertools.permutations(range(len(vals)))
+        else:
+            n = len(vals)
+            orders = [tuple(reversed(range(n)))] + [tuple((i + k) % n for i in range(n)) for k in range(1, n)]
+        tried = 0
+        for od in orders:
+            if list(od) == list(range(len(vals))):
+                continue
+            tried += 1
+            if tried > 720:
+                break
+            write_vals([vals[i] for i in od])
+            st, tl = run_once()
+            if st == "confirmed":
+                return st, "(values reordered: %s)\n" % (list(od),) + tl
+        write_vals(vals)
+        return first
